@@ -16,7 +16,8 @@ func reqJobs(harness string, coilNs, byteNs []int, extra map[string]int) []sym.J
 		for sel := 0; sel < 10; sel++ {
 			switch sel {
 			case 6:
-				for i := len(coilNs) - 1; i >= 0; i-- {
+				// ascending: small instances decide fastest, and a violation at a small size stops the sweep early
+				for i := 0; i < len(coilNs); i++ {
 					add(sel, tcp, coilNs[i])
 				}
 			case 7, 9:
